@@ -245,12 +245,31 @@ def q_late_signature(wmax):
     return Query(f"two/late_signature/w{wmax}", fn, ["int_ticks"], desc="first time signature only at the second bar line")
 
 
-def q_tokenise(flags, bins):
+def q_unclosed_note(wmax):
+    """a track whose last note is never closed, handed straight to bar splitting in 6/8 (the closing note-off is imputed)"""
     def fn(ctx):
-        tok = Tokeniser(num_tracks=2, velocity_bins=bins, flag_running_values=flags[0], flag_fuse_track=flags[1],
+        a = abs_sequence([ts(6, 8, time=0), on(0, 60, 70, time=ctx.int("s0", 0, 30)), off(0, 60, time=ctx.int("e0", 31, 40)),
+                          on(0, 62, 70, time=ctx.int("s1", 72, 72 + wmax))])
+        b = mk(ctx, [("ON", 0), "W", ("OFF", 0)], wmax, prefix="b", chan=(1, 1))
+        bars = Sequence.sequences_split_bars([a, b], 0)
+        outs = [x.sequence for tr in bars for x in tr]
+        comp = Composition.from_sequences([Bar.to_sequence(bars[0]), Bar.to_sequence(bars[1])])
+        outs += comp.to_sequences()
+        bad = [x for o in outs for x in all_int_times(o)]
+        ctx.note("non-integer times", bad)
+        ctx.must("int_ticks", not bad, disc="unclosed_note")
+        return [obs_rel(raw_rel(o)) for o in outs]
+    return Query(f"two/unclosed_note_68/w{wmax}", fn, ["int_ticks"], desc="unclosed last note through bar splitting in 6/8")
+
+
+def q_tokenise(flags, bins, ppqn=None):
+    def fn(ctx):
+        tok = Tokeniser(ppqn=ppqn, num_tracks=2, velocity_bins=bins, flag_running_values=flags[0], flag_fuse_track=flags[1],
                         flag_fuse_value=flags[2], flag_fuse_velocity=flags[3])
         a = mk(ctx, S1, 3, prefix="a", mult=12, pitch=(60, 60), vel=(96, 97))
         b = mk(ctx, ["W", ("ON", 0), "W", ("OFF", 0)], 3, prefix="b", mult=12, chan=(1, 1), pitch=(62, 62), vel=(96, 97))
+        badvoc = [k for k in tok.dictionary for p in k.split("-") if TOKEN_RE.match(p) and not TOKEN_RE.match(p).group(2).isdigit()]
+        ctx.must("int_vocabulary", not badvoc)
         ok, tokens = call(tok.tokenise, [a, b])
         if not ok:
             ctx.must("tokenise_accepts_grid_input", False, disc=type(tokens).__name__)
@@ -262,7 +281,7 @@ def q_tokenise(flags, bins):
         bad = [x for o in seqs for x in all_int_times(o)]
         ctx.must("int_ticks", not bad, disc="detokenise")
         return [tokens]
-    return Query(f"tokenise/flags{''.join(str(int(f)) for f in flags)}/bins{bins}", fn, ["int_tokens", "int_ticks"],
+    return Query(f"tokenise/flags{''.join(str(int(f)) for f in flags)}/bins{bins}{'/ppqn' + str(ppqn) if ppqn else ''}", fn, ["int_tokens", "int_ticks"],
                  desc="tokenise + detokenise")
 
 
@@ -286,6 +305,8 @@ def queries(tier, seed):
     qs.append(q_late_signature(6))
     qs.append(q_tokenise((True, True, True, True), 1))
     qs.append(q_tokenise((False, False, False, False), 2))
+    qs.append(q_tokenise((True, True, True, True), 1, ppqn=24))       # the resolution passed explicitly, grids left at their defaults
+    qs.append(q_unclosed_note(6))
     if tier == "thorough":
         qs.append(q_tokenise((True, False, True, False), 5))
         qs.append(q_tokenise((False, True, False, True), 8))
